@@ -191,6 +191,58 @@ def gen_cases(tier, rnd, prop, budget):
             if i % 4 == 3:
                 K.add(blocks[0] | blocks[1])
             yield n, v, sorted(K), "sa-blocks:blockK"
+    # cost-sharing games at n = 7, 8 with SPARSE knowledge: every player costs 1 (value −1), a few possibly overlapping blocks earn a
+    # bonus — often exactly the size of the block, so that known blocks are worth exactly 0 and best partition totals are exactly 0
+    # (mixed signs, exact zeros, coalitions of 6 and more players; additive + non-negative unanimity games: convex, hence superadditive)
+    if prop in ("C02", "C03", "C01"):
+        for i in range(8 if tier == "quick" else 80):
+            n = 7 + i % 2
+            nb = rnd.randint(2, 4)
+            blocks = []
+            for _ in range(nb):
+                sz = rnd.randint(2, 4)
+                blocks.append(sum(1 << p_ for p_ in rnd.sample(range(n), sz)))
+            blocks = sorted(set(blocks))
+            bonus = {b: Fraction(G.popcount(b) if rnd.random() < 0.6 else rnd.randint(1, 6)) for b in blocks}
+            cost = [Fraction(-1) if rnd.random() < 0.85 else Fraction(-2) for _ in range(n)]
+            v = [sum((cost[p_] for p_ in range(n) if c >> p_ & 1), Fraction(0)) + sum((w_ for b, w_ in bonus.items() if c & b == b), Fraction(0))
+                 for c in range(2 ** n)]
+            K = set(G.minimal_ids(n)) | set(blocks)
+            if i % 3 == 2:
+                K.add(rnd.randrange(3, 2 ** n - 1))
+            yield n, v, sorted(K), "sa-costblocks:sparseK"
+    # SAM games at n = 6, 7 in which the REFINEMENT rounds of the approximate computer really change something (they almost never do on
+    # random games: 0 of 900 random coverage / flower cases, ~26 % of these): a centre player and two "petals" {centre, a, b} are known;
+    # the two outer players of a petal cover (nearly) the same items, the centre covers one of them, and one or two ballast players
+    # with private items keep v(N) far below, so that the lower bound of the union of the petals is lifted only in round 1 — through a
+    # split whose other part was itself lifted by the monotone pass of round 0
+    if prop in ("C04", "C07", "C08"):
+        for i in range((24 if tier == "quick" else 240) if prop == "C04" else (6 if tier == "quick" else 60)):
+            n = 6 + i % 2
+            players = list(range(n))
+            rnd.shuffle(players)
+            c_, a1, b1, a2, b2 = players[:5]
+            ballast = players[5:]
+            items = iter(range(1000))
+            S1 = [next(items) for _ in range(rnd.randint(1, 3))]
+            S2 = [next(items) for _ in range(rnd.randint(1, 3))]
+            cover = {}
+            for p_, S_ in ((a1, S1), (b1, S1), (a2, S2), (b2, S2)):
+                cover[p_] = frozenset(S_ if rnd.random() < 0.7 else rnd.sample(S_, max(1, len(S_) - 1)))
+            cover[c_] = frozenset(rnd.sample(S1 + S2, 1)) if rnd.random() < 0.8 else frozenset([next(items)])
+            for p_ in ballast:
+                cover[p_] = frozenset(next(items) for _ in range(rnd.randint(1, 3)))
+            v = []
+            for c in range(2 ** n):
+                u = set()
+                for p_ in range(n):
+                    if c >> p_ & 1:
+                        u |= cover[p_]
+                v.append(Fraction(-len(u)))
+            K = set(G.minimal_ids(n)) | {(1 << c_) | (1 << a1) | (1 << b1), (1 << c_) | (1 << a2) | (1 << b2)}
+            if i % 4 == 3:
+                K.add(rnd.randrange(3, 2 ** n - 1))
+            yield n, v, sorted(K), "sam-coverage:petalsK"
     # nearly complete knowledge with the SAME few unknown ids for n = 6, 7, 8 in ascending order within one process (the end of an
     # episode): whatever is remembered per "set of unknown coalitions" must not be carried from one player count to another
     if prop in ("C03", "C01", "C02", "C08"):
